@@ -8,12 +8,15 @@ mkdir -p work/seedlogs
 IDS="$@"; [ -z "$IDS" ] && IDS=$(ls seeded)
 for NAME in $IDS; do
   PROP=$(python3 -c "import json;print(json.load(open('seeded/$NAME/meta.json'))['property'])")
+  SCOPE=$(python3 -c "import json;print(json.load(open('seeded/$NAME/meta.json')).get('in_scope', True))")
   git -C /repo apply /verif/seeded/$NAME/patch.diff || { echo "$NAME: patch does not apply"; continue; }
   ./check $PROP quick > work/seedlogs/regress_$NAME.log 2>&1; RC=$?
   git -C /repo checkout -- .
   V=$(grep -h "^VIOLATION" work/seedlogs/regress_$NAME.log | head -1)
   if [ $RC -eq 1 ] && [ -n "$V" ]; then
     case "$V" in *no-failing-input-found) echo "$NAME ($PROP): detected, no failing input";; *) echo "$NAME ($PROP): detected with failing input";; esac
+  elif [ "$SCOPE" = "False" ] && [ $RC -eq 0 ]; then
+    echo "$NAME ($PROP): silent, as intended (the change is outside the property's quantification)"
   else
     echo "$NAME ($PROP): MISSED (rc=$RC)"
   fi
